@@ -487,15 +487,10 @@ func (cs *supply) Reserve(g Grant, o *libmem.Offer) (map[string]libmem.NodeMask,
 				sharedPortion, g.String(), cs.DumpAllocatable())
 		}
 		// Like an allocation, a reinstated grant must leave the pools it takes
-		// CPUs from enough sharable CPUs for what is granted in them, and needs
-		// a sharable CPU itself if its container runs on the shared ones.
+		// CPUs from enough sharable CPUs for what is granted in them.
 		if pool := cs.shortWithout(exclusive); pool != nil {
 			return nil, policyError("can't reserve exclusive CPUs (%s) of %s, %s needs them",
 				exclusive.String(), g.String(), pool.Name())
-		}
-		if (exclusive.IsEmpty() || sharedPortion > 0) && cs.sharable.Difference(exclusive).IsEmpty() {
-			return nil, policyError("can't reserve %s, no sharable CPUs left in %s",
-				g.String(), cs.DumpAllocatable())
 		}
 		cs.isolated = cs.isolated.Difference(isolated)
 		cs.sharable = cs.sharable.Difference(exclusive)
